@@ -291,13 +291,40 @@ func sysVariantRun(v sysVariant, g *hx.Gen, sz *sizer, dist map[string]int) (cas
 	if !c.WaitProxyRunning(name, 5*time.Second) {
 		return setupFail("proxy did not reach phase running within 5 s")
 	}
-	probes := 0
-	// warm-up with unrecorded probes (the server fetches the first work connection after 500 ms)
-	if !w.probeUntilReply(target, 10*time.Second, &probes) {
-		return cases, append(out, sysFinding{"sys:not-established", "no datagram got through the new tunnel within 10 s", ""})
-	}
-
 	var sends []send
+	// pingUntilReply: recorded phase-1 datagrams (may be lost, never duplicated / corrupted / misrouted) from
+	// user 0 every 100 ms until one of them is answered; then the outstanding ones drain
+	pingUntilReply := func(timeout time.Duration) bool {
+		deadline := time.Now().Add(timeout)
+		var mine []int
+		answered := func() int {
+			w.mu.Lock()
+			defer w.mu.Unlock()
+			n := 0
+			for _, i := range mine {
+				if w.rpSeen[i] > 0 {
+					n++
+				}
+			}
+			return n
+		}
+		for time.Now().Before(deadline) {
+			sends = append(sends, send{0, 1, mkPayload(g, 0, len(sends), 8+g.Intn(24))})
+			mine = append(mine, len(sends)-1)
+			w.sendBurst(sends, len(sends)-1, target)
+			if waitUntil(100*time.Millisecond, func() bool { return answered() > 0 }) {
+				last, lastAt := answered(), time.Now()
+				for answered() < len(mine) && time.Since(lastAt) < 150*time.Millisecond {
+					time.Sleep(pollEvery)
+					if n := answered(); n != last {
+						last, lastAt = n, time.Now()
+					}
+				}
+				return true
+			}
+		}
+		return false
+	}
 	burst := func(phase, lo, hi int) bool {
 		n := lo + g.Intn(hi-lo+1)
 		from := len(sends)
@@ -320,37 +347,30 @@ func sysVariantRun(v sysVariant, g *hx.Gen, sz *sizer, dist map[string]int) (cas
 		}
 		hx.CountBy(dist, fmt.Sprintf("sys replaced=%v sockets=%d", replaced, ov.nports))
 	}
-
-	// case A: no replacement, every send in phase 0 (the order clauses apply)
-	for b := 0; b < 2; b++ {
-		if !burst(0, 1, 4) {
-			break
+	forceCut := func() (bool, string) {
+		switch {
+		case !v.sudp:
+			return s.Svc.VerifC03CloseUDPWorkConn(name), "server work connection closed"
+		case !v.mux:
+			return rl.kill(1) > 0, "relayed work/visitor connections killed"
+		default:
+			return rl.kill(0) > 0, "relayed connection killed (re-login)"
 		}
 	}
-	finish(false)
-	w.reset()
-	sends = nil
 
-	// case B: phase 0, replacement with phase 1 datagrams, phase 2
+	// case B (first, so that the very first datagram of the tunnel is a recorded one): warm-up pings
+	// (phase 1; the server fetches the first work connection after 500 ms), phase 0, a replacement
+	// under traffic (phase 1), phase 2, a SILENT replacement, phase 2 again
+	if !pingUntilReply(10 * time.Second) {
+		return cases, append(out, sysFinding{"sys:not-established", "no datagram got through the new tunnel within 10 s", ""})
+	}
 	sz.large = 1 // at most one datagram of 1400..1500 bytes per variant
 	okB := true
 	for b := 0; b < 4 && okB; b++ {
 		okB = burst(0, 1, 6)
 	}
 	if okB {
-		forced := false
-		how := ""
-		switch {
-		case !v.sudp:
-			forced = s.Svc.VerifC03CloseUDPWorkConn(name)
-			how = "server work connection closed"
-		case !v.mux:
-			forced = rl.kill(1) > 0
-			how = "relayed work/visitor connections killed"
-		default:
-			forced = rl.kill(0) > 0
-			how = "relayed connection killed (re-login)"
-		}
+		forced, how := forceCut()
 		hx.CountBy(dist, "sys forced: "+how)
 		if !forced {
 			out = append(out, sysFinding{"sys:setup", "no connection to break (" + how + ")", ""})
@@ -363,7 +383,7 @@ func sysVariantRun(v sysVariant, g *hx.Gen, sz *sizer, dist map[string]int) (cas
 			time.Sleep(20 * time.Millisecond)
 		}
 		t0 := time.Now()
-		if !w.probeUntilReply(target, 15*time.Second, &probes) {
+		if !pingUntilReply(15 * time.Second) {
 			out = append(out, sysFinding{"sys:not-reestablished", "after the work connection broke (" + how + ") no datagram got through within 15 s", ""})
 			okB = false
 		} else {
@@ -381,6 +401,48 @@ func sysVariantRun(v sysVariant, g *hx.Gen, sz *sizer, dist map[string]int) (cas
 			okB = burst(2, 1, 6)
 		}
 	}
+	if okB {
+		// silent replacement: nobody sends while the connection is replaced.  udp: the server installs the
+		// new work connection on its own (observed through the accessor); from one second after that every
+		// datagram must arrive (phase 2) — the property allows a loss only WHILE the connection is being
+		// re-established.  sudp: the visitor reconnects on the next datagram, so that one (and the pings
+		// until the first answer) is phase 1; nothing the users sent earlier may show up again.
+		oldID := ""
+		if !v.sudp {
+			oldID = s.Svc.VerifC03UDPWorkConnID(name)
+		}
+		forced, how := forceCut()
+		hx.CountBy(dist, "sys forced silently: "+how)
+		if !forced {
+			out = append(out, sysFinding{"sys:setup", "no connection to break silently (" + how + ")", ""})
+		}
+		if !v.sudp {
+			if !waitUntil(10*time.Second, func() bool { id := s.Svc.VerifC03UDPWorkConnID(name); return id != "" && id != oldID }) {
+				out = append(out, sysFinding{"sys:not-reestablished", "the server did not install a new work connection within 10 s", ""})
+				okB = false
+			}
+			time.Sleep(1200 * time.Millisecond)
+		} else {
+			time.Sleep(1500 * time.Millisecond)
+			if !pingUntilReply(15 * time.Second) {
+				out = append(out, sysFinding{"sys:not-reestablished", "after the silent break (" + how + ") no datagram got through within 15 s", ""})
+				okB = false
+			}
+		}
+		silentFrom := len(sends)
+		for b := 0; b < 3 && okB; b++ {
+			okB = burst(2, 1, 3)
+		}
+		w.mu.Lock()
+		for i := silentFrom; i < len(sends); i++ {
+			if sends[i].phase == 2 && w.bkSeen[i] == 0 {
+				out = append(out, sysFinding{"sys:lost-after-reestablished", fmt.Sprintf("datagram %d (user %d, %d bytes), sent at light load more than a second "+
+					"after the replaced work connection was up again (%s), never reached the backend", i, sends[i].user, len(sends[i].data), how), ""})
+				break
+			}
+		}
+		w.mu.Unlock()
+	}
 	w.mu.Lock()
 	p1, l1 := 0, 0
 	for i, sd := range sends {
@@ -393,5 +455,15 @@ func sysVariantRun(v sysVariant, g *hx.Gen, sz *sizer, dist map[string]int) (cas
 	w.mu.Unlock()
 	hx.CountBy(dist, fmt.Sprintf("sys phase-1 answered=%d lost=%d", p1, l1))
 	finish(true)
+	w.reset()
+	sends = nil
+
+	// case A: no replacement, every send in phase 0 (the order clauses apply)
+	for b := 0; b < 2; b++ {
+		if !burst(0, 1, 4) {
+			break
+		}
+	}
+	finish(false)
 	return cases, out
 }
